@@ -262,7 +262,12 @@ def gen_gated(rng: random.Random, *, name: str = "g", n_blocks: tuple[int, int] 
                     table.append(None)
                 else:
                     table.append(sorted(rng.sample(tnames, rng.randint(0, k))))
-            g = {"k": "route", "name": f"{P}g{K}", "params": [{"n": key}], "targets": tnames, "multi": True, "table": table, "open": openness(io)}
+            gtargets = list(tnames)
+            if rng.random() < 0.5:
+                # END may be a target of a multi-target gate and may be named NEXT TO real targets in one decision
+                gtargets.append("END")
+                table = [d + ["END"] if d is not None and (j % 2 == 0 or not d) else d for j, d in enumerate(table)]
+            g = {"k": "route", "name": f"{P}g{K}", "params": [{"n": key}], "targets": gtargets, "multi": True, "table": table, "open": openness(io)}
             nodes.append(g)
             for t, o in zip(tnames, outs):
                 nodes.append(fn(t, pick(1), [o]))
